@@ -3,6 +3,7 @@
 import json, subprocess, sys
 
 HOOK_COMMITS = ["e2c5f5d"]
+FIX_COMMITS = ["92d05d9","2f27094","fb921a5","7155879","c3211c8","1a593ad","1bc8a7f","47c46e8"]
 
 E1 = "E1 bounded-exhaustive configuration enumeration vs Go reference model"
 E2 = "E2 explicit-state search over API histories on real objects (replay-built successors)"
@@ -25,6 +26,42 @@ CHECKS = {
    technique="bounded-exhaustive enumeration with all-distinct labels of every index list / patch position / reshape / concat within the bound, bit-exact comparison with the reference model and round-trip checks",
    text="Element-moving operations never inspect the floats, so one all-distinct labelling per configuration decides the element mapping for all values; every Slice index list, every Patch source/position/index form, every equal-count Reshape, every dim of Squeeze/UnSqueeze/Flatten, every Broadcast source and every 2-3 operand Concat within the bound is compared bit-exactly, and the round trips of the statement are executed on the real code.",
    note="Trusted: reference model; value-parametricity argument. Bounded shapes."),
+ "C01": dict(engine="E2", ref="§5 C01",
+   technique="explicit enumeration of all operation DAGs (straight-line programs) up to a node bound x tracked masks x roots, plus sequences and deep families, each executed on the real code and compared with a reference reverse pass; rule applications counted through a hook against a polynomial budget",
+   text="Every straight-line program up to the operation bound over an alphabet that exercises each kind of backward rule (operand-reading, result-reading, other-operand-reading, n-ary, shape-changing), with operands drawn from all earlier tensors so that every fan-out/reconvergence pattern occurs, is built and back-propagated on the real code from every root; every tensor's gradient (nil-ness, shape, value) is compared with the model's topological reverse pass; sequences of back-propagations over graphs sharing leaves must add up; the verif hook counts backward-rule applications against (E+1)^2.",
+   note="Trusted: reference reverse pass (validated against finite differences). Bounds: <=3 (4, 5 on a sub-alphabet) operations, two [2]-leaves, families to depth 24 (48)."),
+ "C02": dict(engine="E1", ref="§5 C02",
+   technique="bounded-exhaustive enumeration of (operation, operand shapes, arguments, tracked subset, upstream weighting) configurations, real back-propagation vs analytic VJP of the reference model",
+   text="For each of the 33 differentiable operations every configuration within the bound (every dim, exponent, index form, Patch source/position, Reshape target, Concat arity, tracked subset, two value assignments, two upstream weightings) is back-propagated on the real code; BackPropagate must succeed and every tracked operand must receive a finite gradient of its own shape equal to the model VJP.",
+   note="Trusted: model VJPs (selftest vs finite differences on every run). Bounds: ranks <=3 quick, <=5 thorough."),
+ "C07": dict(engine="E1", ref="§5 C07",
+   technique="bounded-exhaustive enumeration of all (source,target) broadcast pairs and all implicitly broadcasting operand pairs, real gradients vs sum-over-copies model; listed known finding recognised by an exact alternative model",
+   text="Every explicit Broadcast pair and every Add/Sub/Mul/Div/Dot/MatMul operand pair within the bound is back-propagated; the expanded operand's gradient must have its own shape and equal the sum over copies. The genuine defect (mean instead of sum) is a listed known finding: a case counts as KNOWN-FINDING only if the observed gradients equal the mean-model exactly; factor-1 cases and everything else must match the exact model.",
+   note="Known finding KF-1 (broadcast_avg) pinned by the repository's own TestBroadcast. Bounds: target rank <=3 quick, <=5 thorough."),
+ "C08": dict(engine="E2", ref="§5 C08",
+   technique="explicit-state breadth-first search over API-call histories; each transition executes the real library by replaying the history on fresh objects; conformance of every tensor with the abstract tracked/spent model in every visited state",
+   text="All interleavings of tensor creation, unary/binary/n-ary/comparison operations, BackPropagate and ResetGradContext up to the pool/depth bound that satisfy the property's preconditions are explored; after every transition every tensor is compared with the model (gradient nil-ness and value, tracked/spent flags through the hook, forward values, behavioural spent probe).",
+   note="Bounds: pool <=5 depth 5 (thorough pool 5 depth 7, pool 6 depth 6). Hook reads private flags."),
+ "C12": dict(engine="E1", ref="§5 C12",
+   technique="bounded-exhaustive enumeration of prediction/target value-class tuples and tracked combinations, real loss vs scalar formula",
+   text="All tuples of the prediction/target value classes (including exactly 0, 1, outside [0,1], within 1e-12 of the clipping bounds, magnitude 1e6) for small batches and all class pairs at all position pairs for larger ones, under all four tracking combinations.",
+   note="Value classes, batch <=4, classes <=3."),
+ "C14": dict(engine="E1", ref="§5 C14",
+   technique="bounded-exhaustive enumeration of shapes x activation configs (every Softmax dim, every LeakyRelu slope incl. nil) x value classes, real Forward vs formula",
+   text="Every activation configuration on every shape of the bound and on every value-class tuple of small inputs is compared with the defining formula; Softmax additionally sums to 1 along the configured dimension.",
+   note="Bounds: rank <=4 (5), sizes {1,2,3}, |x|<=700."),
+ "C17": dict(engine="E1", ref="§5 C17",
+   technique="bounded-exhaustive enumeration of shapes x learning rates x gradient origins, real Update vs w - lr*g, with identity/immutability checks and all error paths",
+   text="Every shape/learning-rate/gradient-origin configuration within the bound: new tensor equals w - lr*g, the old object and its gradient are untouched, error paths replace nothing.",
+   note="Bounded shapes, generic values."),
+ "C18": dict(engine="E2", ref="§5 C18",
+   technique="enumeration of all constructor-call sequences up to a length bound under a seeded global source; conformance of every call's elements with the seeded gonum stream using the statement's exact parameters",
+   text="All call sequences up to the bound are executed after seeding; each call's elements must be exactly the next draws of the gonum distribution with the statement's parameters, which decides shape, tracking, support, scale constants, freshness and independence deterministically (no statistical test decides).",
+   note="Trusted: gonum samplers and x/exp/rand. Fallback necessary conditions if the implementation leaves that stream."),
+ "C19": dict(engine="E2", ref="§5 C19",
+   technique="explicit-state BFS over Accumulate/Result histories with invalid calls interleaved, real metric replayed per transition, plus exhaustive re-partitioning of every short data sequence",
+   text="Every history up to the depth bound over all valid batches of size <=2 (3) on a 4-label alphabet and six kinds of invalid call is executed on a fresh Accuracy; Result and the hook counters must equal matched/total of the model after every transition; every consecutive partition of every sequence up to length 5 (6) must give the same Result.",
+   note="State (total, correct) deduplicated; label alphabet {0,1,2.5,-1}."),
 }
 
 NOT_YET = {}
